@@ -29,7 +29,8 @@ RULE = ("functions in lowering form: 1-2 accelerators x 1-3 fields, full-field s
         "accfg.effects<none> at every depth, optionally pre-threaded `from` states and launch fields; runtime "
         "inputs give trip counts 0-4, lb != 0, step > 1, both branch outcomes; a case is non-trivial when the "
         "program has a loop or an if and at least one state value with a non-empty inferred dictionary; "
-        "distinct = distinct program texts")
+        "distinct = distinct program texts; plus ops annotated accfg.effects<full>, and (L2) accfg-trace-states "
+        "re-run on its own fully threaded output")
 TRUSTED_BASE = [
     "Coq 8.16.1 kernel + vm_compute (no native_compute)",
     "abstract machine coq/Model/AccSem.v (the specification of what a launch observes) and the certificate wf/chk of coq/Model/AccInfer.v",
@@ -40,7 +41,11 @@ ASSUMPTIONS = [
     "the theorem is about tables that pass the decidable certificate wf_prog; that the table of the real infer_state_of "
     "passes it on the real accfg-trace-states output is checked per generated program (L1), not proved for all programs",
     "the model weave (coq/Model/AccWeave.v) of _weave_states_in_region is tied to the code by exact comparison modulo renaming (L1); that its output always passes wf_prog / has the input's trace is validated per run, not proved",
-    "ops with regions other than scf.for/scf.if, and accfg.effects on scf ops, are outside the abstract IR (converter rejects them)",
+    "ops with regions other than scf.for/scf.if, and accfg.effects on scf ops, are outside the abstract IR (converter rejects them): "
+    "the `elif op.regions` branch of _weave_states_in_region (third hunk of fix b1d61cd) is covered by no model, L1 or L2",
+    "cert_side of the woven program is evaluated per run, not proved for the weave model; on re-threaded IR (an scf.if that already has a "
+    "state result) it is false (C07_rethreaded_if_refuted) and only the per-run ghost execution of L2 speaks about soundness there",
+    "the inferred dictionaries are compared as dictionaries (key order of infer_state_of is not observable by its two users)",
     "integers are mathematical (no wrap-around); opaque calls may rewrite every register of every accelerator (oracle)",
 ]
 
@@ -61,6 +66,9 @@ def _cfg(rng, i):
     if i % 3 == 0:
         c.p_repeat = 0.5
         c.n_vals = 2
+    if i % 5 == 4:
+        c.p_call = 0.3
+        c.p_efffull = 0.4         # ops annotated accfg.effects<full> (non-call "test.op" / func.call) clobber too
     return c
 
 
@@ -99,7 +107,8 @@ def correspondence(ctx):
     texts = []
     for sh in shards:
         texts.append(HEADER_W + f"Definition cases : list (prog * tbl * prog) := {accir._l(c for c, _ in sh)}.\n"
-                     "Eval vm_compute in failing (fun c => match c with (p, t, b) => tbl_eqb_on (map fst t) (ainfer p) t end) cases.\n"
+                     "Definition astate_same (a b : astate) : bool := Nat.eqb (length a) (length b) && st_sub a b && st_sub b a.\n"
+                     "Eval vm_compute in failing (fun c => match c with (p, t, b) => forallb (fun s => astate_same (tlook (ainfer p) s) (tlook t s)) (map fst t) end) cases.\n"
                      "Eval vm_compute in failing (fun c => match c with (p, t, b) => wf_prog (tfun t) p end) cases.\n"
                      "Eval vm_compute in failing (fun c => match c with (p, t, b) => weave_ok b p end) cases.\n"
                      "Eval vm_compute in failing (fun c => match c with (p, t, b) => cert_side p end) cases.\n")
@@ -124,13 +133,33 @@ def correspondence(ctx):
 
 
 # ---------------------------------------------------------------- L2
+F42 = "prethreaded_if"
+
+
+def _has_state_if(text, fn):
+    """class of known finding F42, evaluated on the INPUT text (the pass crashed, so there is no staged program):
+    some scf.if of the function already has a !accfg.state result.  Same predicate as Coq's prethreaded_if."""
+    try:
+        from xdsl.dialects import scf
+        from snaxc.dialects import accfg
+        f = AC.find_func(accir.parse(text), fn)
+        return any(isinstance(op, scf.IfOp) and any(isinstance(r.type, accfg.StateType) for r in op.results)
+                   for op in f.walk())
+    except Exception:
+        return False
+
+
 def _l2_cases(items):
     """items: (text, st, ins). Returns failures via Coq: ghost check + trace equality before/woven."""
     fails = []
     live = [(t, st, ins) for (t, st, ins) in items if not st.error]
     for t, st, ins in items:
         if st.error and st.error[0] == "crash":
-            fails.append({"what": "pass-crash", "text": t, "fn": st.fn, "error": st.error[1], "klass": None})
+            # F42: only the verifier error of the misaligned scf.for on an input that already has an scf.if state result
+            k = F42 if ("Body block must have induction and loop-carried variables" in st.error[1]
+                        and _has_state_if(t, st.fn)) else None
+            fails.append({"what": "pass-crash" + ("(re-run on threaded IR)" if k else ""), "text": t, "fn": st.fn,
+                          "error": st.error[1], "klass": k})
     shards = AC.shard(live, 8)
     texts = []
     for sh in shards:
@@ -186,6 +215,18 @@ def search(ctx, deep=False):
         ins = [accir.gen_inputs(ctx.rng, info, sty) for sty in (None, None, None, None, "one", "many", "many", "zero")]
         items.append((text, AC.Staged(text), ins))
     items += [(t, st, ins) for (t, info, st, ins) in progs]
+    # accfg-trace-states re-run on its own output (fully threaded IR): the certificate does not apply when an scf.if
+    # already has a state result (C07_rethreaded_if_refuted), so the real tables are executed as ghost assertions and
+    # the trace is compared here; every 3rd program with an scf.if / a loop
+    k = 0
+    for (t, info, st, ins) in progs:
+        if st.error or not (info["ifs"] or info["loops"]):
+            continue
+        k += 1
+        if k % 3 == 0:
+            st2 = AC.Staged(st.traced_text)
+            items.append((st.traced_text, st2, ins))
+            ctx.count({"rerun": t[:120]}, True, "rerun" + t, "rerun" + ("-crash" if st2.error else ""))
     fails = _l2_cases(items)
     seen, out = set(), []
     # report a semantic failure (concrete runtime input) before loud failures of the pass
@@ -211,7 +252,10 @@ PROBES = [
 
 
 def replay_known(ctx, entry):
-    return False
+    w = entry["witness"]
+    text = open(w["file"]).read()
+    fails = _l2_cases([(text, AC.Staged(text, w["fn"]), w.get("inputs") or [])])
+    return any(f.get("klass") == entry["class"] for f in fails)
 
 
 def replay(ctx, obj):
